@@ -244,9 +244,28 @@ def sg():
 LEVELS = ["IGNORE", "WARN", "RAISE", "IMMEDIATE"]
 
 
+_USABLE: list = []
+
+
+def load_dialects(chk=None) -> list:
+    """import every dialect under the watchdog (dialect modules parse type strings while they are imported, so a
+    broken parser can hang right there); a dialect that cannot be loaded is reported and left out"""
+    *_, Dialect, Dialects = sg()
+    if _USABLE:
+        return _USABLE
+    for d in Dialects:
+        try:
+            with_watchdog(lambda: Dialect.get_or_raise(d.value or None).tokenizer_class.KEYWORDS, 15.0)
+            _USABLE.append(d.value)
+        except BaseException as e:  # noqa
+            if chk is not None:
+                chk.broken.append({"kind": "correspondence", "what": f"dialect {d.value!r} cannot be loaded: {type(e).__name__}: {str(e)[:120]}"})
+                chk.note(f"dialect {d.value!r} cannot be loaded ({type(e).__name__}); left out")
+    return _USABLE
+
+
 def all_dialects():
-    *_, Dialects = sg()
-    return [d.value for d in Dialects]
+    return list(load_dialects())
 
 
 class StepBudget(BaseException):
@@ -924,6 +943,8 @@ def minimise(sql, dialect, level, write, verdict, max_runs=250, max_s=12.0):
     def bad(s):
         nonlocal runs
         runs += 1
+        if os.environ.get("C05_DEBUG_DUMP"):
+            print("min", runs, repr(s)[:100], dialect, level, write, flush=True)
         if time.time() > t_end:
             runs = max_runs
             return False
@@ -1428,6 +1449,8 @@ def search(chk: Check, hints: list, budget_s: float) -> None:
     def one(sql, d, lvl, write, kind):
         nonlocal tried, failing
         tried += 1
+        if os.environ.get("C05_DEBUG_DUMP"):
+            print("one", tried, round(time.time() - t0, 1), repr(sql)[:80], d, lvl, flush=True)
         v = run_pipeline(sql, d, lvl, write)
         n = v["n_tokens"]
         st = v["steps"]
@@ -1493,10 +1516,20 @@ def run(chk: Check) -> None:
     chk.write_generated(translate(chk))
     proved = chk.prove(MODULES, "Properties.C05", THEOREMS)
     hints = []
+    load_dialects(chk)
+    if os.environ.get("C05_DEBUG_DUMP"):
+        import faulthandler
+        faulthandler.dump_traceback_later(float(os.environ["C05_DEBUG_DUMP"]), exit=True)
     try:
         try:
             correspond_programs(chk)
+            chk.cov["t_programs_s"] = round(chk.elapsed(), 1)
+            if os.environ.get("C05_DEBUG_DUMP"):
+                print("after A", chk.elapsed(), flush=True)
             hints = correspond_activations(chk)
+            chk.cov["t_activations_s"] = round(chk.elapsed(), 1)
+            if os.environ.get("C05_DEBUG_DUMP"):
+                print("after B", chk.elapsed(), flush=True)
         except HarnessError as e:
             if proved:
                 raise
